@@ -112,6 +112,51 @@ func init() {
 		bs := t.hex()
 		return rvParse(variant, exts, addr, bs)
 	})
+	// rvsweep <32|64> <exts> <lo> <hi> <nrows> (<name> <match> <mask>)...
+	// Exhaustive comparison of the decoder with a reference encoding table
+	// over all words in [lo, hi): => <accepted> <mismatches> [<word> <impl> <ref>]
+	register("rvsweep", func(t *tokens) string {
+		variant := t.next()
+		exts := t.next()
+		lo := t.uint()
+		hi := t.uint()
+		n := t.int()
+		type row struct {
+			name        string
+			match, mask uint32
+		}
+		rows := make([]row, n)
+		for i := range rows {
+			rows[i].name = t.next()
+			rows[i].match = uint32(t.uint())
+			rows[i].mask = uint32(t.uint())
+		}
+		p := rvParser(variant, exts)
+		var accepted, mismatches uint64
+		first := ""
+		var bs [4]byte
+		for w := lo; w < hi; w++ {
+			bs[0], bs[1], bs[2], bs[3] = byte(w), byte(w>>8), byte(w>>16), byte(w>>24)
+			name, ok := p.VerifMatchName(bs[:])
+			ref, refOK := "", false
+			for i := range rows {
+				if uint32(w)&rows[i].mask == rows[i].match {
+					ref, refOK = rows[i].name, true
+					break
+				}
+			}
+			if ok {
+				accepted++
+			}
+			if ok != refOK || name != ref {
+				mismatches++
+				if first == "" {
+					first = fmt.Sprintf(" %d %s %s", w, fmtText(name), fmtText(ref))
+				}
+			}
+		}
+		return fmt.Sprintf("%d %d%s", accepted, mismatches, first)
+	})
 	// rvpair <32|64> <exts> <addr> <hex1> <hex2>: two words at the same address
 	//   => <rvparse result 1> || <rvparse result 2>
 	register("rvpair", func(t *tokens) string {
